@@ -21,8 +21,8 @@ TRUSTED = ['Lean 4.33.0 kernel', 'axioms: propext, Quot.sound, Classical.choice 
            'harness/walkcase (in-memory fs.FS with data-driven listing order, sizes and faults; fake extractors) and the line protocol',
            'Lean compiler for the driver executable']
 ASSUME = ['FileRequired and Extract are tables (path-determined); faults are path-determined (the same operation on the same path fails the same way)',
-          'requested paths are not symlinks (fs.Stat follows links on a real filesystem)', 'Windows path separators and StoreAbsolutePath are outside the model',
-          'gitignore patterns outside the sub-language (globs with "/", "**", character classes) are not generated']
+          'requested paths are not symlinks (fs.Stat follows links on a real filesystem)', 'Windows path separators are outside the model; StoreAbsolutePath is exercised by the stream (absolute roots, prefix stripping) but has no theorem',
+          'gitignore patterns outside the modelled sub-language (globs with "/", "**", character classes, blank-affixed lines) are generated as RAW lines and answered from a table of real go-git verdicts computed per case (C01_table_matcher_domainLaw); the sub-language matcher itself is validated against go-git on every gitignore scan of the stream']
 RULE = ('case = forest of 1-3 roots (depth<=3, <=14 nodes each; names with dots, spaces, leading dash, non-ASCII, prefixes of each other; regular files, symlinks, FIFOs, '
         '.gitignore files at any depth with literal / dir-only / negated patterns), data-driven listing order, every option combination (skip list, real regexp and glob, gitignore, '
         'requested paths incl. repeated and missing ones, sub-directory cut-off, symlink reading, size limit around the file sizes), 1-3 table-driven extractors returning packages/errors/panics; '
